@@ -1,7 +1,7 @@
 """Check driver: source extraction, function verification against a contract, discharge, evidence, exit codes."""
 import ast, hashlib, json, os, re, sys, time, traceback
 import z3
-from .smt import check_sat, NONE
+from .smt import check_sat, NONE, guarded_check
 from .types import *       # noqa
 from .pyvc import Executor, State, Outcome, Obligation, Contract
 
@@ -97,7 +97,7 @@ def discharge(ob, axioms, timeout_ms, model=None):
         s2.set(timeout=min(int(timeout_ms), 2000))
         for f in list(axioms) + list(model.quantified_axioms()) + list(ob.hyps) + [z3.Not(ob.goal)]:
             s2.add(f)
-        if s2.check() == z3.unsat:
+        if guarded_check(s2, min(int(timeout_ms), 2000))[0] == z3.unsat:
             from .smt import Verdict
             v = Verdict("unsat", "z3-ematch", v.seconds + time.time() - t0)
     if v.status == "unknown" and not (model is not None and hasattr(model, "quantified_axioms")):
@@ -108,7 +108,7 @@ def discharge(ob, axioms, timeout_ms, model=None):
         s3.set(timeout=min(int(timeout_ms), 8000))
         for f in fs:
             s3.add(f)
-        if s3.check() == z3.unsat:
+        if guarded_check(s3, min(int(timeout_ms), 8000))[0] == z3.unsat:
             from .smt import Verdict
             v = Verdict("unsat", "z3-ematch", v.seconds + time.time() - t0)
     status = {"unsat": "discharged", "sat": "open", "unknown": "unknown"}[v.status]
@@ -127,12 +127,17 @@ def _solve_smt2(args):
         sol.set("smt.mbqi", False)
     try:
         sol.from_string(smt2)
-        r = sol.check()
+        from .smt import guarded_check as _gc
+        r, why = _gc(sol, timeout_ms)
+        if r == _z3.sat:
+            r = sol.check()
     except Exception as e:        # noqa
         return ("unknown", _t.time() - t0, "worker error: " + repr(e)[:200])
     dt = _t.time() - t0
     if r == _z3.unsat:
         return ("unsat", dt, "")
+    if r == _z3.unknown and why:
+        return ("unknown", dt, why)
     if r == _z3.sat:
         try:
             mtxt = "; ".join(f"{d.name()} = {sol.model()[d]}" for d in sol.model().decls()[:40])[:3000]
@@ -143,6 +148,8 @@ def _solve_smt2(args):
 
 
 _POOL = None
+_UNDISCHARGED = 0          # undischarged obligations seen so far in this run
+_RETRY_SPENT = 0.0         # wall time spent re-examining undischarged queries in process (serial)
 
 
 def pool():
@@ -156,8 +163,21 @@ def pool():
 
 def discharge_many(obs, axioms, timeout_ms, model=None):
     """Discharge obligations in a process pool.  Each query is serialised to SMT-LIB; verdicts are the same as discharge()."""
-    if len(obs) < 4 or os.environ.get("VERIF_JOBS") == "1":
-        return [discharge(ob, axioms, timeout_ms, model) for ob in obs]
+    global _RETRY_SPENT, _UNDISCHARGED
+    if _UNDISCHARGED > 40:
+        # the run already carries dozens of undischarged obligations (it cannot end as "held"): the rest get a short budget so that a change
+        # that breaks a whole fragment is reported in minutes, not after every query has run into its full timeout
+        timeout_ms = min(timeout_ms, 2000)
+    budget = max(180.0, 6 * timeout_ms / 1000.0)          # in-process (serial) re-examination, per run, over all calls
+    if (len(obs) < 4 and _RETRY_SPENT <= budget) or os.environ.get("VERIF_JOBS") == "1":
+        out = []
+        for ob in obs:
+            t1 = time.time()
+            out.append(discharge(ob, axioms, timeout_ms, model))
+            if out[-1].status != "discharged":
+                _RETRY_SPENT += time.time() - t1
+                _UNDISCHARGED += 1
+        return out
     tasks = []
     for ob in obs:
         fs = list(axioms) + list(ob.hyps) + [z3.Not(ob.goal)]
@@ -178,8 +198,16 @@ def discharge_many(obs, axioms, timeout_ms, model=None):
         if status != "discharged":
             retry.append(len(results) - 1)
     # anything not discharged is re-examined in process (cvc5 fall-back, E-matching pass, model objects for the falsifier)
+    # The re-examination is serial, so it runs under a wall-clock budget: on a tree where the code is right only a handful of queries get
+    # here; when a change breaks many obligations at once the remaining ones keep the pool's verdict (not discharged either way).
+    _UNDISCHARGED += len(retry)
     for i in retry:
+        if _RETRY_SPENT > budget:
+            results[i].detail = (results[i].detail + " | not re-examined in process (retry budget of the run used up)").strip(" |")
+            continue
+        t1 = time.time()
         results[i] = discharge(obs[i], axioms, timeout_ms, model)
+        _RETRY_SPENT += time.time() - t1
     return results
 
 
@@ -457,7 +485,14 @@ class Run:
                     replay, found_input = falsifier(g, info)
                 except Exception:
                     self.notes.append("falsifier crashed on " + g + ": " + traceback.format_exc()[-800:])
-            if info["open"] or found_input:
+            shape_only = bool(info["open"]) and all(is_shape_obligation(r) for r in info["open"]) and not found_input
+            if shape_only:
+                # the source no longer has the shape this obligation was stated over (an AST / template-source pattern) and no failing input
+                # was found: the code may have been refactored harmlessly - undecided, not a violation
+                path = write_replay(self.pid, g, info, replay, False)
+                self.notes.append(f"shape obligation(s) of {g} no longer match the source and no failing input was found (replay {path})")
+                undecided.append(g + " (source shape changed; no failing input found)")
+            elif info["open"] or found_input:
                 path = write_replay(self.pid, g, info, replay, found_input)
                 tail = "" if found_input else " no-failing-input-found"
                 print(f"VIOLATION property={self.pid} replay={path}{tail}")
@@ -481,7 +516,10 @@ class Run:
             for u in self.unsupported:
                 print(f"UNDECIDED property={self.pid} unsupported: {u}")
             for g in undecided:
-                print(f"UNDECIDED property={self.pid} solver gave no verdict on {g}")
+                if g.endswith("no failing input found)"):
+                    print(f"UNDECIDED property={self.pid} {g}")
+                else:
+                    print(f"UNDECIDED property={self.pid} solver gave no verdict on {g}")
             if exit_code == 0:
                 exit_code = 2
         self.write_evidence(exit_code, undecided)
@@ -544,6 +582,21 @@ def load_known_findings():
         for k in json.load(open(p)).get("findings", []):
             out.setdefault(k["property"], []).append(k)
     return out
+
+
+SHAPE_KINDS = {"ast", "jinja-ast", "structural", "table"}
+
+
+def is_shape_obligation(r):
+    """Obligations stated over the *shape of the source* (a statement of a function body, a template's source text): a mismatch means the
+    code changed shape, which a harmless refactoring also does.  Per-variant obligations on emitted code (`:v<k>:` in the name), SMT
+    obligations, determinism findings, render checks and evaluated tables are not shape obligations."""
+    import re as _re
+    if r.kind not in SHAPE_KINDS and r.backend not in ("ast", "jinja-ast"):
+        return False
+    if _re.search(r":v\d+(:|$)", r.name):
+        return False
+    return r.kind in ("structural", "table") and (r.backend in ("ast", "jinja-ast", "eval"))
 
 
 def write_replay(pid, group, info, replay, found_input):
